@@ -66,8 +66,7 @@ type (
 )
 
 const (
-	cIdxFileName       = "tindex.dat"
-	cIdxBackupFileName = "tindex.bak"
+	cIdxFileName = "tindex.dat"
 )
 
 func NewInmemService() Service {
@@ -391,26 +390,21 @@ func (ims *inmemService) saveStateUnsafe() error {
 	}
 
 	fn := path.Join(ims.Config.WorkingDir, cIdxFileName)
-	_, err := os.Stat(fn)
-	var bFn string
-	if !os.IsNotExist(err) {
-		bFn = path.Join(ims.Config.WorkingDir, cIdxBackupFileName)
-		err = os.Rename(fn, bFn)
-	} else {
-		err = nil
-	}
-
-	if err != nil {
-		return errors.Wrapf(err, "could not rename file %s to %s", fn, bFn)
-	}
 
 	data, err := json.Marshal(ims.tmap)
 	if err != nil {
 		return errors.Wrapf(err, "could not marshal tmap ")
 	}
 
-	if err = ioutil.WriteFile(fn, data, 0640); err != nil {
-		return errors.Wrapf(err, "could not write file %s ", fn)
+	// write the new version aside and rename it over the old one: at every moment tindex.dat is
+	// either the previous or the new index, never missing and never half-written
+	tmpFn := fn + ".tmp"
+	if err = ioutil.WriteFile(tmpFn, data, 0640); err != nil {
+		return errors.Wrapf(err, "could not write file %s ", tmpFn)
+	}
+
+	if err = os.Rename(tmpFn, fn); err != nil {
+		return errors.Wrapf(err, "could not rename file %s to %s", tmpFn, fn)
 	}
 
 	return nil
